@@ -51,7 +51,7 @@ class Rig:
     """one broker + one Deribit market with an in-memory book; records the actions the market emits"""
 
     def __init__(self, instrs, now=360, token="ETH", wallet=Decimal(0), cash=Decimal(0), allow_neg=False, price=None,
-                 is_open=None, positions=None):
+                 is_open=None, positions=None, via_frame=False):
         from demeter import Broker, MarketInfo, MarketTypeEnum
         from demeter.deribit import DeribitOptionMarket, DeribitMarketStatus
         self.token_name = token
@@ -60,11 +60,20 @@ class Rig:
         self.market = DeribitOptionMarket(MarketInfo("deribit", MarketTypeEnum.deribit_option), self.tok)
         self.broker.add_market(self.market)
         self.actions = []
-        self.market._record_action_callback = self.actions.append
+        # how a Broker's owner (the Actuator) receives the actions of a market
+        if hasattr(self.market, "_record_action_callback"):
+            self.market._record_action_callback = self.actions.append
+        else:
+            self.market._record_action = self.actions.append
         if price is None:
             price = float(instrs[0]["underlying"]) if instrs else 1600.0
-        self.market.set_market_status(DeribitMarketStatus(timestamp=ts_of(now), data=book_frame(instrs)),
-                                      price=pd.Series([price], index=[self.tok.name]))
+        if via_frame and instrs:
+            # the way the Actuator does it: the market owns the (time, instrument)-indexed frame and takes the bar's book out of it
+            self.market.data = deribit_frame([(now, instrs)])
+            self.market.set_market_status(DeribitMarketStatus(timestamp=ts_of(now), data=None), price=pd.Series([price], index=[self.tok.name]))
+        else:
+            self.market.set_market_status(DeribitMarketStatus(timestamp=ts_of(now), data=book_frame(instrs)),
+                                          price=pd.Series([price], index=[self.tok.name]))
         if is_open is not None:
             self.market.is_open = is_open
         if wallet is not None:
@@ -88,7 +97,27 @@ def F(x) -> Fraction:
     return Fraction(x) if not isinstance(x, Fraction) else x
 
 
+def Fn(x):
+    """Fraction of a number of the data frame, the string "nan" for a NaN (a bar whose rows carry no data)"""
+    try:
+        if x != x:
+            return "nan"
+        return F(x)
+    except (ValueError, TypeError, ArithmeticError):
+        return "nan"
+
+
+def Ff(x):
+    """a float cell of the frame as a Fraction, "nan" when the cell holds no number (NaN / NaT of a row without data)"""
+    try:
+        return Fn(float(x))
+    except (ValueError, TypeError):
+        return "nan"
+
+
 def dump_levels(ls):
+    if not isinstance(ls, (list, tuple)):
+        return "nan"
     return [[F(l[0]), F(l[1]), isinstance(l[1], float)] for l in ls]
 
 
@@ -96,18 +125,80 @@ def dump_book(df: pd.DataFrame):
     out = []
     for name, row in df.iterrows():
         out.append({
-            "name": name, "open": bool(row["state"] == "open"), "kind": str(row["type"]), "strike": F(int(row["strike_price"])),
-            "expiry": minutes(row["expiry_time"]), "mark": F(float(row["mark_price"])), "underlying": F(float(row["underlying_price"])),
-            "delta": F(float(row["delta"])), "gamma": F(float(row["gamma"])),
+            "name": name, "open": bool(row["state"] == "open"), "kind": str(row["type"]),
+            "strike": "nan" if pd.isna(row["strike_price"]) else F(int(row["strike_price"])),
+            "expiry": "nan" if pd.isna(row["expiry_time"]) else minutes(row["expiry_time"]), "mark": Ff(row["mark_price"]),
+            "underlying": Ff(row["underlying_price"]), "delta": Ff(row["delta"]), "gamma": Ff(row["gamma"]),
             "asks": dump_levels(row["asks"]), "bids": dump_levels(row["bids"]),
         })
     return out
 
 
+def frame_cells(rig):
+    """the order-book cells of the frame the market was given (None when the book was handed over directly)"""
+    df = getattr(rig.market, "data", None)
+    if df is None:
+        return None
+    return [(str(ix), copy.deepcopy(r["asks"]), copy.deepcopy(r["bids"])) for ix, r in df.iterrows()]
+
+
 def dump_balance(b):
     if b is None:
         return None
-    return {"netValue": F(b.net_value), "cash": F(b.balance), "premium": F(b.premium), "delta": F(b.delta), "gamma": F(b.gamma)}
+    return {"netValue": Fn(b.net_value), "cash": Fn(b.balance), "premium": Fn(b.premium), "delta": Fn(b.delta), "gamma": Fn(b.gamma)}
+
+
+def has_nan(x) -> bool:
+    if isinstance(x, str):
+        return x == "nan"
+    if isinstance(x, dict):
+        return any(has_nan(v) for v in x.values())
+    if isinstance(x, (list, tuple)):
+        return any(has_nan(v) for v in x)
+    return False
+
+
+# ---- private state of the market.  Everything the properties observe is read through the public API (balance, positions, market_status,
+# get_market_balance(), recorded actions).  The one piece of private state the *model* needs in order to be stepped from the implementation's
+# state is the cached valuation (it decides what get_market_balance() answers on the closed minutes of an hour).  It is looked up by what
+# it is, not by its name: the attribute that turns into an OptionMarketBalance when a market values itself.  If no such attribute can be
+# identified the cache is "unknown": the state comparison leaves it out and reads between the hours are compared through the oracle only.
+_CACHE_ATTR = "unset"
+
+
+def cache_attr():
+    global _CACHE_ATTR
+    if _CACHE_ATTR != "unset":
+        return _CACHE_ATTR
+    _CACHE_ATTR = None
+    try:
+        from demeter.deribit import OptionMarketBalance
+        probe = Rig([], now=360)
+        before = {k: v for k, v in vars(probe.market).items()}
+        probe.market.get_market_balance()
+        changed = [k for k, v in vars(probe.market).items()
+                   if isinstance(v, OptionMarketBalance) and not isinstance(before.get(k), OptionMarketBalance)]
+        if len(changed) == 1:
+            _CACHE_ATTR = changed[0]
+    except Exception:  # noqa: BLE001 — then the cache stays unknown
+        _CACHE_ATTR = None
+    return _CACHE_ATTR
+
+
+def read_cache(m):
+    """(known?, cached OptionMarketBalance or None)"""
+    a = cache_attr()
+    if a is None or not hasattr(m, a):
+        return False, None
+    return True, getattr(m, a)
+
+
+def market_prices(m):
+    """the price row the market was given with its status (public `price_status` if there is one)"""
+    for a in ("price_status", "_price_status"):
+        if hasattr(m, a):
+            return getattr(m, a)
+    return None
 
 
 def dump_state(rig: Rig):
@@ -119,7 +210,7 @@ def dump_state(rig: Rig):
                     "avgSell": F(p.avg_sell_price), "sellAmt": F(p.sell_amount)})
     price, price_dec = 0, False
     try:
-        pv = m._price_status[rig.tok.name]
+        pv = market_prices(m)[rig.tok.name]
         price_dec = isinstance(pv, Decimal)
         price = F(pv) if price_dec else F(float(pv))
     except Exception:
@@ -127,7 +218,7 @@ def dump_state(rig: Rig):
     return {
         "cash": F(m.balance), "positions": pos, "book": dump_book(m.market_status.data),
         "wallet": [[k.name, F(v.balance)] for k, v in rig.broker._assets.items()],
-        "allowNeg": bool(rig.broker.allow_negative_balance), "cache": dump_balance(m._balance_cache),
+        "allowNeg": bool(rig.broker.allow_negative_balance), "cache": dump_balance(read_cache(m)[1]) if read_cache(m)[0] else "unknown",
         "flagOpen": bool(m.is_open), "now": minutes(m.market_status.timestamp), "price": price, "priceDec": price_dec,
     }
 
@@ -136,16 +227,16 @@ def dump_action(a):
     from demeter.deribit._typing import BuyAction, SellAction, DepositAction, WithdrawAction, DeliverAction, ExpiredAction
     if isinstance(a, (BuyAction, SellAction)):
         return {"type": "buy" if isinstance(a, BuyAction) else "sell", "name": a.instrument_name, "kind": a.type.value,
-                "avgPrice": F(a.average_price), "amount": F(a.amount), "premium": F(a.total_premium), "mark": F(a.mark_price),
-                "underlying": F(a.underlying_price), "fee": F(a.fee), "orders": [[F(o.price), F(o.amount)] for o in a.orders]}
+                "avgPrice": Fn(a.average_price), "amount": Fn(a.amount), "premium": Fn(a.total_premium), "mark": Fn(a.mark_price),
+                "underlying": Fn(a.underlying_price), "fee": Fn(a.fee), "orders": [[Fn(o.price), Fn(o.amount)] for o in a.orders]}
     if isinstance(a, (DepositAction, WithdrawAction)):
-        return {"type": "deposit" if isinstance(a, DepositAction) else "withdraw", "token": a.token, "amount": F(a.amount)}
+        return {"type": "deposit" if isinstance(a, DepositAction) else "withdraw", "token": a.token, "amount": Fn(a.amount)}
     if isinstance(a, (DeliverAction, ExpiredAction)):
         d = {"type": "deliver" if isinstance(a, DeliverAction) else "expired", "name": a.instrument_name, "kind": a.type.value,
-             "mark": F(a.mark_price), "amount": F(a.amount), "premium": F(a.total_premium), "strike": F(int(a.strike_price)),
-             "underlying": F(a.underlying_price)}
+             "mark": Fn(a.mark_price), "amount": Fn(a.amount), "premium": Fn(a.total_premium), "strike": ("nan" if a.strike_price != a.strike_price else F(int(a.strike_price))),
+             "underlying": Fn(a.underlying_price)}
         if isinstance(a, DeliverAction):
-            d.update({"deliverAmount": F(a.deriver_amount), "fee": F(a.fee), "income": F(a.income_amount)})
+            d.update({"deliverAmount": Fn(a.deriver_amount), "fee": Fn(a.fee), "income": Fn(a.income_amount)})
         return d
     return {"type": type(a).__name__}
 
@@ -192,6 +283,12 @@ def apply_op(rig: Rig, op):
         if t == "update":
             m.update()
             return "ok", None
+        if t == "estimate":          # read-only helper
+            return "ok", Fn(m.estimate_cost(op["name"], op["amount"], op.get("side", "buy"), op.get("priceTok")))
+        if t == "check":             # read-only helper (what buy/sell call first)
+            a, _, pr = m.check_transaction(op["name"], param_decimal(op["amount"]), param_decimal(op.get("priceTok")),
+                                           param_decimal(op.get("priceUsd")), op.get("side", "buy") == "buy", param_decimal(op.get("mult")))
+            return "ok", [Fn(a), None if pr is None else Fn(pr)]
         raise ValueError(t)
     except Exception as e:  # noqa: BLE001 — the exception class is the observation
         return type(e).__name__, None
@@ -234,6 +331,8 @@ def norm_state(s):
 
 
 def step_request(state, op, token="ETH", ctx="py", flt="ieee"):
+    if state.get("cache") == "unknown":
+        state = dict(state, cache=None)
     return {"fn": "step", "cfg": token, "ctx": ctx, "float": flt, "state": canon(state), "op": canon(op_json(op))}
 
 
@@ -282,8 +381,13 @@ def compare_step(ctx, tag, before, op, impl_out, impl_res, impl_after, impl_acti
     if ans["outcome"] != impl_out:
         ctx.disagree(f"{tag}: outcome impl {impl_out} model {ans['outcome']} ({ans.get('cause')})", replay)
         return False
+    unknown_cache = isinstance(impl_after, dict) and impl_after.get("cache") == "unknown"
+    if unknown_cache:
+        impl_after = {k: v for k, v in impl_after.items() if k != "cache"}
+        ans = dict(ans, state={k: v for k, v in ans["state"].items() if k != "cache"})
+        ctx.count("steps_compared_without_cache")
     d = diff(impl_after, ans["state"], "state")
-    if d is None and impl_out == "ok":
+    if d is None and impl_out == "ok" and not (unknown_cache and isinstance(impl_res, dict) and "netValue" in impl_res and impl_after["now"] % 60 != 0):
         d = diff(impl_res, ans["result"], "result")
     if d is None:
         d = diff(impl_actions, ans["actions"], "actions")
@@ -313,16 +417,16 @@ def gen_size(rng, token):
     return rng.randint(1, 5)
 
 
-def gen_levels(rng, token, start_k, direction, n, offgrid=False):
+def gen_levels(rng, token, start_k, direction, n, offgrid=False, dense=False):
     """n levels; asks ascending from start_k (direction +1), bids descending (direction -1); distinct prices"""
     ls = []
     k = start_k
     for _ in range(n):
-        k += direction * rng.randint(1, 4)
+        k += direction * (rng.randint(1, 4) if not dense else rng.choice((1, 1, 1, 2, 3)))
         if k <= 0:
             break
         p = grid_price(k)
-        if offgrid:
+        if offgrid and not dense:
             p = float(repr(round(p + direction * rng.uniform(0.00001, 0.0004), rng.randint(5, 9))))
             if p <= 0:
                 break
@@ -337,31 +441,94 @@ def gen_levels(rng, token, start_k, direction, n, offgrid=False):
     return out
 
 
-def gen_instr(rng, idx, token="ETH", now=360, crossed=False, max_levels=12):
+def rough_side(rng, levels, token):
+    """the same side the way a data file may hold it: levels in any order, a price level split over several rows (sizes int / float mixed).
+    Orders are matched by price (best first, one level per price), not by the position of a row."""
+    out = [list(l) for l in levels]
+    r = rng.random()
+    if out and r < 0.6:
+        for _ in range(rng.randint(1, 3)):
+            p = rng.choice(out)[0]
+            out.insert(rng.randint(0, len(out)), [p, gen_size(rng, token)])
+    if r > 0.3:
+        rng.shuffle(out)
+    return out
+
+
+def gen_instr(rng, idx, token="ETH", now=360, crossed=False, max_levels=12, rough=0.0):
     kind = rng.choice(("CALL", "PUT"))
     strike = rng.choice(range(1000, 3001, 50))
     underlying = round(rng.uniform(1200, 2600), 2)
-    mark_k = rng.randint(4, 400)
+    dense = rng.random() < 0.15
+    mark_k = rng.randint(4, 400) if not dense else rng.randint(1000, 2400)      # prices 0.5-1.2: neighbouring grid levels lie within 0.1 %
     mark = grid_price(mark_k) if rng.random() < 0.6 else round(mark_k * 0.0005 + rng.uniform(-0.0002, 0.0002), 6)
     offgrid = rng.random() < 0.2
     na = rng.choice((0, 1, 1, 2, 3, 5, 8, max_levels))
     nb = rng.choice((0, 1, 1, 2, 3, 5, 8, max_levels))
-    asks = gen_levels(rng, token, mark_k, +1, na, offgrid)
-    bids = gen_levels(rng, token, mark_k, -1, nb, offgrid)
+    asks = gen_levels(rng, token, mark_k, +1, na, offgrid, dense)
+    bids = gen_levels(rng, token, mark_k, -1, nb, offgrid, dense)
     if crossed and rng.random() < 0.5:
         asks = gen_levels(rng, token, max(1, mark_k - 8), +1, na, offgrid)
     r = rng.random()
     expiry = now + rng.choice((60, 600, 30000)) if r < 0.8 else now - rng.choice((0, 60, 1000))
-    return {
+    ins = {
         "name": f"{token}-X{idx}-{strike}-{'C' if kind == 'CALL' else 'P'}", "state": "open" if rng.random() < 0.96 else "closed",
         "kind": kind, "strike": strike, "expiry": expiry, "mark": mark, "underlying": underlying,
         "delta": round(rng.uniform(-1, 1), 5), "gamma": round(rng.uniform(0, 0.01), 5), "asks": asks, "bids": bids,
     }
+    if rough and rng.random() < rough:
+        ins["asks"], ins["bids"] = rough_side(rng, asks, token), rough_side(rng, bids, token)
+        ins["rough"] = True
+    return ins
 
 
-def gen_book(rng, token="ETH", now=360, crossed=False, n=None, max_levels=12):
+TIE_Q = 4096                # binary price grid of the cap-tie instruments: every price, mark x multiple and mark / multiple is exact
+TIE_MULTS = (1, 1.25, 1.5, 2, 4)
+
+
+def tie_mult_arg(rng, m):
+    """the multiple as an int / float / Decimal argument (float_param_formatter makes the same Decimal of all of them)"""
+    if m in (1, 2, 4) and rng.random() < 0.4:
+        return int(m)
+    return float(m) if rng.random() < 0.5 else Decimal(str(m))
+
+
+def gen_tie_instr(rng, idx, token="ETH", now=360, rough=0.0):
+    """an instrument with an ask priced EXACTLY at multiple x mark and a bid EXACTLY at mark / multiple (binary-exact marks such as
+    0.029296875 = 120/4096, multiples 1 / 1.25 / 1.5 / 2 / 4), with 0-3 strictly better levels in front of them and 0-2 worse behind:
+    whether a level exactly on the cap counts must not matter for the consistency of the outcome."""
+    a = 60 * rng.randint(1, 12)
+    mb, ms = rng.choice(TIE_MULTS), rng.choice(TIE_MULTS)
+    cap, floor = int(a * mb), int(a / ms)
+    assert cap == a * mb and floor * ms == a
+    size = lambda: rng.choice((rng.randint(1, 40), float(rng.randint(1, 40)), rng.randint(1, 400) / 10)) if token == "ETH" \
+        else rng.choice((rng.randint(1, 40), rng.randint(1, 400) / 10))  # noqa: E731
+    better_a = sorted(rng.sample(range(a, cap), min(rng.randint(0, 3), cap - a))) if cap > a else []
+    worse_a = sorted(rng.sample(range(cap + 1, cap + 40), rng.randint(0, 2)))
+    better_b = sorted(rng.sample(range(floor + 1, a + 1), min(rng.randint(0, 3), a - floor)), reverse=True) if a > floor else []
+    worse_b = sorted(rng.sample(range(max(1, floor - 40), floor), min(rng.randint(0, 2), max(0, floor - max(1, floor - 40)))), reverse=True)
+    asks = [[k / TIE_Q, size()] for k in better_a + [cap] + worse_a]
+    bids = [[k / TIE_Q, size()] for k in better_b + [floor] + worse_b]
+    kind = rng.choice(("CALL", "PUT"))
+    strike = rng.choice(range(1000, 3001, 50))
+    ins = {
+        "name": f"{token}-T{idx}-{strike}-{'C' if kind == 'CALL' else 'P'}", "state": "open", "kind": kind, "strike": strike,
+        "expiry": now + rng.choice((60, 600, 30000)), "mark": a / TIE_Q, "underlying": round(rng.uniform(1200, 2600), 2),
+        "delta": round(rng.uniform(-1, 1), 5), "gamma": round(rng.uniform(0, 0.01), 5), "asks": asks, "bids": bids,
+        "tie": {"buy": [mb, cap / TIE_Q, len(better_a)], "sell": [ms, floor / TIE_Q, len(better_b)]},
+    }
+    if rough and rng.random() < rough:
+        ins["asks"], ins["bids"] = rough_side(rng, asks, token), rough_side(rng, bids, token)
+        ins["rough"] = True
+    return ins
+
+
+def gen_book(rng, token="ETH", now=360, crossed=False, n=None, max_levels=12, rough=0.0, tie=0.0):
     n = n if n is not None else rng.choice((1, 2, 3, 4))
-    return [gen_instr(rng, i, token, now, crossed, max_levels) for i in range(n)]
+    book = [gen_instr(rng, i, token, now, crossed, max_levels, rough) for i in range(n)]
+    if tie and rng.random() < tie:
+        book[rng.randrange(n)] = gen_tie_instr(rng, n, token, now, rough)
+    return book
 
 
 def level_dec(x) -> Decimal:
@@ -398,17 +565,28 @@ def gen_amount(rng, levels, token):
     return Decimal(rng.randint(1, 60)), "int-decimal"
 
 
+def norm_levels(levels, side):
+    """best price first, one level per price (Decimal sizes as they print): what the generator aims its amounts and limit prices at"""
+    agg = {}
+    for p, sz in levels:
+        agg[p] = agg.get(p, Decimal(0)) + level_dec(sz)
+    return [[p, agg[p]] for p in sorted(agg, reverse=(side == "sell"))]
+
+
 def gen_trade(rng, instrs, token, side=None, positions=None):
     """a buy/sell op dict + tags"""
     side = side or rng.choice(("buy", "sell"))
     if not instrs or rng.random() < 0.04:
         return {"type": side, "name": "ETH-NOPE-1-C", "amount": 1}, "unknown-instrument"
     ins = rng.choice(instrs)
+    ties = [i for i in instrs if "tie" in i]
+    if ties and rng.random() < 0.5:
+        return gen_tie_trade(rng, rng.choice(ties), token, side, positions)
     if side == "sell" and positions and rng.random() < 0.7:
         held = [i for i in instrs if i["name"] in positions]
         if held:
             ins = rng.choice(held)
-    levels = ins["asks"] if side == "buy" else ins["bids"]
+    levels = norm_levels(ins["asks"] if side == "buy" else ins["bids"], side)
     amount, acls = gen_amount(rng, levels, token)
     if side == "sell" and positions and ins["name"] in positions and rng.random() < 0.55 and isinstance(amount, (int, Decimal)) \
             and amount > positions[ins["name"]] and acls != "below-min":
@@ -436,13 +614,59 @@ def gen_trade(rng, instrs, token, side=None, positions=None):
             op["priceUsd"], mtag = round(p * ins["underlying"], rng.choice((2, 6))), "limit-usd"
         if rng.random() < 0.5 and acls not in ("below-min", "beyond-depth"):
             lv = level_dec(l[1])
-            op["amount"], acls = rng.choice(((lv, "level-exact"), (lv + 1, "level+1"), (max(Decimal(1), lv - 1), "level-1"), (1, "one")))
+            step = Decimal(1) if token == "ETH" else Decimal("0.1")
+            pd_ = Decimal(str(p))
+            window = [x for x in levels if abs(Decimal(str(x[0])) - pd_) < pd_ / 1000]
+            wsum = sum((level_dec(x[1]) for x in window), Decimal(0))
+            choices = [(lv, "level-exact"), (lv + step, "level+1"), (max(step, lv - step), "level-1"), (step, "one")]
+            if len(window) > 1:
+                first = level_dec(window[0][1])          # the level the order snaps to is the best one inside the window
+                choices += [(wsum, "window-sum"), (first + step, "window-first+1"), (first, "window-first-exact"),
+                            (max(step, ((first + wsum) / 2).quantize(step)), "window-between")] * 2
+            op["amount"], acls = rng.choice(choices)
     elif mode < 0.36:
         op["priceUsd"], mtag = round(rng.uniform(1, 200), 2), "limit-usd-random"
     if rng.random() < 0.3:
         mult = rng.choice((1.0, 1.01, 1.05, 1.5, 2, 10, Decimal("1.1"), 0.5, 0, -1))
         op["mult"] = mult
         mtag += "+cap" if (mult not in (0, -1)) else "+cap-degenerate"
+    if ins.get("rough"):
+        mtag += "~rough"
+    return op, f"{mtag}:{acls}"
+
+
+def gen_tie_trade(rng, ins, token, side, positions=None):
+    """an order capped with the multiple that puts one level of the book exactly on the cap"""
+    step = Decimal(1) if token == "ETH" else Decimal("0.1")
+    m, tie_price, _ = ins["tie"][side]
+    levels = ins["asks"] if side == "buy" else ins["bids"]
+    strictly = [l for l in levels if (l[0] < tie_price if side == "buy" else l[0] > tie_price)]
+    at_tie = [l for l in levels if l[0] == tie_price]
+    inner = sum((level_dec(l[1]) for l in strictly), Decimal(0))
+    tie_sz = sum((level_dec(l[1]) for l in at_tie), Decimal(0))
+    r = rng.random()
+    if r < 0.55:
+        amount, acls = inner + max(step, (tie_sz * Decimal(rng.randint(1, 100)) / 100).quantize(step)), "into-tie-level"
+    elif r < 0.7:
+        amount, acls = inner, "strictly-better-exact"
+    elif r < 0.8 and inner > step:
+        amount, acls = (inner * Decimal(rng.randint(10, 99)) / 100).quantize(step), "inside-strictly-better"
+    elif r < 0.9:
+        amount, acls = inner + tie_sz + step, "beyond-tie-level"
+    else:
+        amount, acls = inner + tie_sz, "through-tie-level"
+    if amount < step:
+        amount = step
+    op = {"type": side, "name": ins["name"], "amount": amount, "mult": tie_mult_arg(rng, m)}
+    mtag = "market+cap-tie"
+    if ins.get("rough"):
+        mtag = "market~rough+cap-tie"
+    if rng.random() < 0.2:
+        op["priceTok"], mtag = tie_price, "limit-at-tie+cap-tie"
+        op["amount"] = max(step, (tie_sz * Decimal(rng.randint(1, 100)) / 100).quantize(step))
+    elif rng.random() < 0.1:
+        op["mult"] = tie_mult_arg(rng, rng.choice(TIE_MULTS))      # some other multiple: no tie, or a tie with a different level
+        mtag = "market+cap-other"
     return op, f"{mtag}:{acls}"
 
 
